@@ -1,2 +1,93 @@
-(** Property C14 — theorems (proofs in Proofs/MuxProofs.v); extended as the proof development grows *)
-From MP4 Require Import Writer MuxProofs.
+(** * Property C14 — track and movie configuration survives the muxer (writer side)
+
+    Statements only; proofs in [Proofs/MuxTotal.v].  They are about what the muxer model
+    ([Model/Writer.v]) hands to the [moov] encoder ([mf_tracks f], [mf_mvhd_*]) and about the
+    bytes it writes before [moov]; the box codecs' round trips carry the values from there to
+    the reader.  [mux_pre]: durations are u32 values, fewer than 2^32-1 tracks, the mdat header
+    lies below 2^64 (see [Props/C17.v]).  Both build modes. *)
+From MP4 Require Import Writer MuxTotal.
+Open Scope string_scope.
+Open Scope list_scope.
+Open Scope N_scope.
+
+(** The tracks of the file are exactly the configurations [add_track] accepted, in call order
+    and unchanged, numbered 1, 2, ...; [add_track] accepts exactly the configurations that pass
+    [conf_check]; the movie timescale is the configured one; the output starts with the
+    configured [ftyp] box. *)
+Theorem configuration_survives : forall m base cfg ops cls f,
+  mux_pre base cfg ops -> run_mux m base cfg ops = Ok (cls, f) ->
+  Forall2 cls_ok ops cls /\
+  map tf_conf (mf_tracks f) = added_confs ops /\
+  map tf_track_id (mf_tracks f) = map N.of_nat (seq 1 (length (mf_tracks f))) /\
+  mf_mvhd_timescale f = mc_timescale cfg /\
+  (exists rest, mf_out f = ftyp_bytes cfg ++ rest).
+Proof. exact c14_config_lemma. Qed.
+Print Assumptions configuration_survives.
+
+(** Durations.  For the track with id [i+1]: the media duration (mdhd) is the sum of the
+    durations of the samples [write_sample] accepted for it, which is also what its [stts]
+    table sums to; the track duration (tkhd) is that sum converted to the movie timescale,
+    rounded down and saturated at 2^64-1 -- hence within one tick when it does not saturate.
+    The movie duration (mvhd) is the maximum of the track durations. *)
+Theorem durations_survive : forall m base cfg ops cls f,
+  mux_pre base cfg ops -> run_mux m base cfg ops = Ok (cls, f) ->
+  (forall i tf, nth_error (mf_tracks f) i = Some tf ->
+     let md := wh_mdhd_duration (tf_hdr tf) in
+     let td := wh_tkhd_duration (tf_hdr tf) in
+     let tts := tc_timescale (tf_conf tf) in
+     let mts := mc_timescale cfg in
+     tts <> 0 /\
+     md = dur_written (N.of_nat i + 1) ops cls /\
+     md = stts_dur (t_stts (tf_tables tf)) /\
+     td = N.min (md * mts / tts) U64MAX /\
+     (md * mts / tts <= U64MAX -> td * tts <= md * mts < (td + 1) * tts)) /\
+  mf_mvhd_duration f = max_list (map (fun tf => wh_tkhd_duration (tf_hdr tf)) (mf_tracks f)).
+Proof. exact c14_durations_lemma. Qed.
+Print Assumptions durations_survive.
+
+(** ** Non-vacuity *)
+Definition ex14_cfg : mp4_conf := mkMp4Conf 0x69736f6d 512 [0x69736f6d; 0x61766331] 1000.
+Definition ex14_video : track_conf :=
+  mkTrackConf "Video" 90000 [117; 110; 100] (AvcConf 1920 1080 [103; 66; 0; 30] [104; 206]).
+Definition ex14_audio : track_conf :=
+  mkTrackConf "Audio" 48000 [101; 110; 103] (AacConf 128000 "AacLowComplexity" "Freq48000" "Stereo").
+Definition ex14_bad : track_conf := mkTrackConf "Video" 0 [117; 110; 100] (Vp9Conf 640 480).
+Definition ex14_ops : list mux_op :=
+  [ OpAddTrack ex14_video; OpAddTrack ex14_bad; OpAddTrack ex14_audio;
+    OpWrite 1 (mkWSample 3000 0 true [1; 2; 3]);
+    OpWrite 2 (mkWSample 1024 0 true [9; 9]);
+    OpWrite 1 (mkWSample 3001 1500 false [4]);
+    OpWrite 7 (mkWSample 5 0 true [0]);                    (* rejected: contributes nothing *)
+    OpWrite 2 (mkWSample 1023 0 true [8; 8]);
+    OpWrite 1 (mkWSample 2999 0 false [5; 6]) ].
+
+Example ex14_pre : mux_pre 0 ex14_cfg ex14_ops.
+Proof. constructor; [repeat constructor|vm_compute; reflexivity|vm_compute; reflexivity]. Qed.
+
+(** 9000 ticks @ 90 kHz = 100 ms; 2047 ticks @ 48 kHz = 42.6 ms -> 42; movie duration 100 *)
+Example ex14_run : forall m,
+  match run_mux m 0 ex14_cfg ex14_ops with
+  | Ok (cls, f) =>
+      cls = [COk; CData; COk; COk; COk; COk; CData; COk; COk] /\
+      map tf_conf (mf_tracks f) = [ex14_video; ex14_audio] /\
+      map tf_track_id (mf_tracks f) = [1; 2] /\
+      map tf_hdr (mf_tracks f) = [mkWh 9000 0 100 0; mkWh 2047 0 42 0] /\
+      map (fun tf => t_stts (tf_tables tf)) (mf_tracks f) = [[(1, 3000); (1, 3001); (1, 2999)]; [(1, 1024); (1, 1023)]] /\
+      (mf_mvhd_timescale f, mf_mvhd_duration f, mf_mvhd_version f) = (1000, 100, 0) /\
+      firstn 24 (mf_out f) = ftyp_bytes ex14_cfg /\
+      dur_written 1 ex14_ops cls = 9000 /\ dur_written 2 ex14_ops cls = 2047
+  | _ => False
+  end.
+Proof. intros []; vm_compute; repeat split; reflexivity. Qed.
+
+(** saturation of the track duration: 3 x (2^32-1) ticks at 1 Hz in a movie timescale of 2^32-1 *)
+Example ex14_saturates : forall m,
+  match run_mux m 0 (mkMp4Conf 0 0 [] 4294967295)
+          [ OpAddTrack (mkTrackConf "Subtitle" 1 [] TtxtConf);
+            OpWrite 1 (mkWSample 4294967295 0 true []); OpWrite 1 (mkWSample 4294967295 0 true []);
+            OpWrite 1 (mkWSample 4294967295 0 true []) ] with
+  | Ok (_, f) => map tf_hdr (mf_tracks f) = [mkWh 12884901885 1 18446744073709551615 1] /\
+                 (mf_mvhd_duration f, mf_mvhd_version f) = (18446744073709551615, 1)
+  | _ => False
+  end.
+Proof. intros []; vm_compute; repeat split; reflexivity. Qed.
